@@ -889,8 +889,11 @@ func (c *CharClassMatcher) parse() {
 	r := strings.NewReader(raw)
 	var chars []rune
 	// escaped[i] reports whether chars[i] was written as an escape sequence:
-	// an escaped '-' (e.g. \x2d) is a character, never the range operator
+	// an escaped '-' (e.g. \x2d) is a character, never the range operator.
+	// The same holds for a '-' next to a Unicode class (e.g. [0\pL-9]): a
+	// class is no range bound, so the runes around it are marked as well.
 	var escaped []bool
+	afterClass := false
 	var buf bytes.Buffer
 outer:
 	for {
@@ -907,6 +910,7 @@ outer:
 			case ']':
 				chars = append(chars, rn)
 				escaped = append(escaped, true)
+				afterClass = false
 				continue
 
 			case 'p':
@@ -924,6 +928,10 @@ outer:
 				} else {
 					c.UnicodeClasses = append(c.UnicodeClasses, string(rn))
 				}
+				if n := len(escaped); n > 0 {
+					escaped[n-1] = true
+				}
+				afterClass = true
 				continue
 
 			case 'x':
@@ -945,10 +953,12 @@ outer:
 			rn, _, _, _ = strconv.UnquoteChar("\\"+buf.String(), 0)
 			chars = append(chars, rn)
 			escaped = append(escaped, true)
+			afterClass = false
 
 		default:
 			chars = append(chars, rn)
-			escaped = append(escaped, false)
+			escaped = append(escaped, afterClass)
+			afterClass = false
 		}
 	}
 
